@@ -8,7 +8,7 @@ EXPLANATION = ('Loop summaries of every run loop compared with their specificati
                'iterations with one step each, row k, buffer [n_collect, n_chains, dim] permuted [1,0,2]); NUTSChain::run (row 0 = position at entry, loop 1..n_collect+n_discard, '
                'guard m >= n_discard, row m - n_discard => row r after n_discard + r transitions); NUTS::run (in-place order-preserving map, stack on dim 0). '
                'Step receivers are reached through &mut places without an intervening clone (continuation).')
-FLOORS = {'obligations': 84}   # counted on the reference tree; fewer instantiated obligations is reported, never passed silently
+FLOORS = {'obligations': 87}   # counted on the reference tree; fewer instantiated obligations is reported, never passed silently
 TECHNIQUE = 'loop summaries (trip counts, guards, affine row indices, carried places) + value-flow normal forms'
 STEP = 'core::MarkovChain::step'
 
@@ -84,6 +84,10 @@ def run(ctx):
     nuts_run(ctx, nc, nd)
     constructors(ctx)
     frames(ctx)
+    for nm, root, al in (('ChainRunner::run', ctx.anchor('rr', name='run', trait='core::ChainRunner', container='trait'), {}), ('HMC::run', ctx.anchor('hr', name='run', self_head='hmc::HMC', container='inherent'), {}),
+                         ('NUTS::run', ctx.anchor('nr', name='run', self_head='nuts::NUTS', container='inherent'), {'numcast': 3})):
+        if root is not None:
+            narrowing_budget(ctx, 'C09', nm, [root], al, why='returned rows are the chain states in the element type of the chain; a conversion to a fixed narrower float type (or an f64 -> element-type read-back) on this path changes values for wider element types / back ends', sp=root['sp'])
 
 
 def frames(ctx):
